@@ -145,7 +145,9 @@ CHECKS = {'C01': {'level': 'exploration',
                  'then the SAME state machine continues on the restored collection. Oracle: restored == original == reference model (rows at '
                  'identical offsets, values bit-for-bit, Count, key lookups, index contents); afterwards every insert must return an offset the '
                  'model considers free and model equality keeps holding; a final extra round trip. non-trivial = a snapshotted state had a row in '
-                 'block>=1 or a deleted/reused offset AND >=1 mutation happened after a restore; distinct = hash of the trace',
+                 'block>=1 or a deleted/reused offset AND >=1 mutation happened after a restore; distinct = hash of the trace | the schema may also '
+                 'hold up to two computed columns that are not bitmap indexes (a sort index on a string column, a trigger), created at any point of '
+                 'the history - also before late data columns',
          'assumptions': ['the restoring collection has the same columns (names, kinds, merge functions) as the original',
                          'vacuum is parked (24h interval), so the expire column is an ordinary int64 column here'],
          'tests': [{'run': '^TestC07$',
@@ -348,7 +350,9 @@ CHECKS = {'C01': {'level': 'exploration',
                  'generated writer programs under the cooperative scheduler with random and exhaustively enumerated schedules at the commit-protocol '
                  'yield points, same ID/ordering/exactly-once invariants over the recorded stream. non-trivial = a multi-block transaction '
                  '(sequential) / two tasks whose commits on one block were adjacent with both pre-latch points passed before either latched '
-                 '(schedules); distinct = hash of trace/schedule',
+                 '(schedules); distinct = hash of trace/schedule | snapshot part (TestC15Snapshot): generated transactions commit WHILE a snapshot '
+                 'is in progress (run by the verif hooks at recorder-open / pre-chunk / pre-close / pre-copy); each must still emit exactly one '
+                 'commit per changed block to the logger, and the snapshot itself nothing',
          'assumptions': ['record order at the logger is apply order (Append is called under the block latch)'],
          'tests': [{'run': '^TestC15$',
                     'checks': {'quick': 250, 'thorough': 2500},
@@ -362,6 +366,11 @@ CHECKS = {'C01': {'level': 'exploration',
                     'timeout': {'quick': 900, 'thorough': 3400}},
                    {'run': '^TestSchedWritersExhaustive$',
                     'env': {'VERIF_PROP': 'C15', 'VERIF_SCHED_LIMIT': {'quick': 2500, 'thorough': 200000}, 'GOMAXPROCS': 1},
+                    'timeout': {'quick': 900, 'thorough': 3400}},
+                   {'run': '^TestC15Snapshot$',
+                    'checks': {'quick': 300, 'thorough': 4000},
+                    'shards': {'quick': 1, 'thorough': 4},
+                    'env': {'GOMAXPROCS': 1},
                     'timeout': {'quick': 900, 'thorough': 3400}}]},
  'C16': {'level': 'exploration',
          'rule': 'model-based stateful histories over a string column whose values come from a 5-value alphabet with forced duplicates (incl. the '
@@ -429,7 +438,9 @@ CHECKS = {'C01': {'level': 'exploration',
                  'and trigger: the calls received == model events - for every committed store to the watched column (offset, value finally stored '
                  'AFTER merge) with stores of one row in issue order, exactly one delete call per deleted row, nothing for rolled-back transactions, '
                  'nothing after DropTrigger. non-trivial = a transaction with a merge followed by a later put on the same row, a row delete, or a '
-                 'rollback while a trigger existed; distinct = hash of the trace',
+                 'rollback while a trigger existed; distinct = hash of the trace | action armDropInsideCommit: the next call of trigger A (inside a '
+                 "commit) drops trigger B of the same column; every OTHER trigger must still receive exactly its events (B's calls in that "
+                 'transaction are not judged)',
          'assumptions': ['bool columns are not watched (a false store is encoded as the delete op-code by design)',
                          'stores into a row that the same transaction also deletes are not judged (only its single delete call is)'],
          'tests': [{'run': '^TestC19$',
